@@ -729,5 +729,54 @@ proof fn lemma_b7_final<FS: FileSystem, PC: PathChecker>(m1: Map<PathBuf, Vec<Li
 //@macro rule=E1 name=anyhow to=<<anyhow::verif_err()>> optional=1
 //@end
 
+// ---------------------------------------------------------------------------------------------
+// C16: the grammar table. The statements of `language_parsers()` (src/language_parsers/mod.rs) from
+// the first grammar construction to the `Ok(HashMap::from([...]))` are pasted and verified against the
+// names the property lists.
+//@include prelude/blocks_table.rs
+
+/// extension / file name `key` is registered with grammar `g`
+pub open spec fn registered(m: Map<OsString, LanguageParser>, key: Seq<char>, g: Seq<char>) -> bool {
+    m.contains_key(osstring_of(key)) && m[osstring_of(key)].grammar() == g
+}
+
+pub open spec fn unregistered(m: Map<OsString, LanguageParser>, key: Seq<char>) -> bool {
+    !m.contains_key(osstring_of(key))
+}
+
+/// C16: "... the grammar registered for its file name's extension - including compound ones such as
+/// `.d.ts`, `go.mod`, `go.sum`, `go.work` and the extension-less `Makefile`/`makefile`"; the negative
+/// entries are what makes `go.mod` resolve through its whole name and `x.rs.bak` through nothing.
+pub open spec fn c16_table(m: Map<OsString, LanguageParser>) -> bool {
+    &&& registered(m, "ts"@, "typescript"@) && registered(m, "d.ts"@, "typescript"@)
+    &&& registered(m, "go"@, "go"@) && registered(m, "go.mod"@, "go"@) && registered(m, "go.sum"@, "go"@) && registered(m, "go.work"@, "go"@)
+    &&& registered(m, "Makefile"@, "makefile"@) && registered(m, "makefile"@, "makefile"@)
+    &&& registered(m, "rs"@, "rust"@)
+    &&& unregistered(m, "mod"@) && unregistered(m, "sum"@) && unregistered(m, "work"@)
+    &&& unregistered(m, "bak"@) && unregistered(m, "rs.bak"@) && unregistered(m, "x.rs.bak"@)
+}
+
+//@unit id=C16.table file=src/language_parsers/mod.rs fn=language_parsers slice_from=<<let bash_parser>> slice_to_block_end=1
+//@wrapper
+fn language_parsers_table() -> (r: anyhow::Result<HashMap<OsString, LanguageParser>>)
+    ensures
+        r matches Ok(m) ==> c16_table(m@), // [C16.table.post.registered_names]
+//@edit rule=ghost before=<<let bash_parser>>
+    proof {
+        reveal_with_fuel(pairs_to_map, 64);
+        broadcast use axiom_blocks_osstring_of_injective;
+        reveal_strlit("mod"); reveal_strlit("sum"); reveal_strlit("work");
+        reveal_strlit("bak"); reveal_strlit("rs.bak"); reveal_strlit("x.rs.bak");
+    }
+//@edit rule=E13 find=<<$a::parser()?>> count=all
+verif_grammar_parser("$a")?
+//@edit rule=E13 find=<<Rc::clone(&$a)>> count=all
+verif_rc_clone(&$a)
+//@edit rule=E13 find=<<$$s.into()>> count=all
+({ proof { reveal_strlit($$s); } verif_osstring_from_str($$s) })
+//@edit rule=E13 find=<<HashMap::from(>>
+verif_hashmap_from_array(
+//@end
+
 } // verus!
 fn main() {}
